@@ -24,6 +24,7 @@ theorem lookupKey_some {t : List (K × Nat)} {k : K} {i : Nat} (h : lookupKey t 
   rw [← h1]
   exact h2
 
+omit [DecidableEq K] in
 theorem nodup_keys_unique {t : List (K × Nat)} (h : (t.map (·.1)).Nodup) {k : K} {i j : Nat}
     (hi : (k, i) ∈ t) (hj : (k, j) ∈ t) : i = j := by
   induction t with
